@@ -44,6 +44,9 @@ func (c14) Assumptions() []string {
 func genReplicas(r *Rng, n int) []Replica {
 	hist := canonicalReplica
 	hist.History = true
+	if r.Chance(5) {
+		hist.Soak = 300
+	}
 	reps := []Replica{canonicalReplica, {Mode: "reverse", Clock: 1_500_000_123, Rand: 99, Sched: r.Uint64() | 1, Procs: 1, Preempt: 10, Rate: 20_000_000}, hist}
 	n++
 	for i := 2; i < n; i++ {
@@ -67,9 +70,17 @@ func genC14(r *Rng, tier string) *Scenario {
 		nrep = 8
 	}
 	switch c := r.Intn(100); {
+	case c < 2:
+		// the whole built-in function table; the history replica has called every function before
+		sc.Family = "builtins"
+		sc.Parts = []string{BuiltinSweepSrc}
+		if r.Chance(50) {
+			sc.Parts = append(sc.Parts, "{{ "+(&Gen{R: r, Prefix: "BS", AllFuncs: true}).Expr("str", 3)+" }}")
+		}
+		sc.Ops = []Op{{Kind: "evalstr", Src: strings.Join(sc.Parts, ""), Data: BuiltinSweepData()}}
 	case c < 45:
 		sc.Family = "string"
-		g := &Gen{R: r, Prefix: "ST", ObjBias: 60, FailBias: 0, ObjFail: true}
+		g := &Gen{R: r, Prefix: "ST", ObjBias: 60, FailBias: 0, ObjFail: true, AllFuncs: r.Chance(50)}
 		if r.Chance(40) {
 			g.FailBias = 45
 		}
@@ -97,6 +108,10 @@ func genC14(r *Rng, tier string) *Scenario {
 				// inputs on which the pinned evaluator panics (integer % 0, dot on a non-object, @each over
 				// a string): whatever the caller sees, it must be the same in every replica
 				p = "<p>before</p>" + Pick(r, []string{"{{ 7 % z0 }}", `{{ "a".x }}`, "{{ n1.y }}", "@each(x in s0){{ x }}@end"})
+			case k < 9 && r.Chance(30):
+				// objects whose keys differ only in case, read through a spelling that is none of them
+				p = Pick(r, []string{`{{ {ETag: "first", ETAG: "second", x: 1}.etag }}`, `{{ {Id: 1, ID: 2, iD: 3, z: 0}.id }}`,
+					`{{ o = {Name: "n1", NAME: "n2", nAME: "n3", name_: 4} }}{{ o.name }}`, `@each(row in [{Url: 1, URL: 2}, {URL: 3, Url: 4}]){{ row.url }}@end`}) + g.CaseVariantRead()
 			case k < 9 && r.Chance(10):
 				// a loop long enough for anything that watches the clock
 				p = "@for(i = 0; i < 2600; i++).@end<i>done</i>"
@@ -114,7 +129,7 @@ func genC14(r *Rng, tier string) *Scenario {
 	case c < 55:
 		// data maps with several unsupported values / the reserved name
 		sc.Family = "baddata"
-		g := &Gen{R: r, Prefix: "BD"}
+		g := &Gen{R: r, Prefix: "BD", AllFuncs: true}
 		data := g.GenData()
 		bad := []struct {
 			k string
@@ -139,6 +154,9 @@ func genC14(r *Rng, tier string) *Scenario {
 	default:
 		sc.Family = "tree"
 		o := TreeOpts{ObjBias: 50, Debug: r.Chance(50), ObjFail: true, ArgClash: r.Chance(30)}
+		if r.Chance(2) {
+			o.Pages = 40 // more files than any worker pool has workers
+		}
 		if r.Chance(30) {
 			o.FailBias = 40
 		}
@@ -197,6 +215,19 @@ func genC14(r *Rng, tier string) *Scenario {
 		for _, p := range t.Pages {
 			sc.Ops = append(sc.Ops, Op{Kind: "string", Name: p, Data: t.Data})
 		}
+		if r.Chance(25) && len(t.Pages) > 0 {
+			// two template files whose names differ only in case, and renders through further spellings
+			p := t.Pages[r.Intn(len(t.Pages))]
+			dir, base := "", p
+			if i := strings.LastIndex(p, "/"); i >= 0 {
+				dir, base = p[:i+1], p[i+1:]
+			}
+			twin := dir + strings.ToUpper(base[:1]) + base[1:]
+			addPage(twin, "<p>case twin of "+p+"</p>")
+			for _, n := range []string{dir + strings.ToUpper(base), strings.ToUpper(p), twin, p} {
+				sc.Ops = append(sc.Ops, Op{Kind: "string", Name: n, Data: t.Data})
+			}
+		}
 	}
 	sc.Replicas = genReplicas(r, nrep)
 	return sc
@@ -225,7 +256,7 @@ func execC14(sc *Scenario, rep Replica) c14Exec {
 	}
 	simrt.SetSchedPolicy(&simrt.SchedPolicy{Seed: rep.Sched, PreemptPct: rep.Preempt, Procs: procs})
 	if rep.History {
-		c14Prelude(w, sc)
+		c14Prelude(w, sc, rep.Soak)
 	}
 	var ex c14Exec
 	ex.multi = map[int]bool{}
@@ -258,7 +289,7 @@ func execC14(sc *Scenario, rep Replica) c14Exec {
 // is reset in between, so anything the code under test remembers across loads
 // or renders (caches, pooled buffers) can influence the scenario's own
 // operations — which the property forbids.
-func c14Prelude(w *World, sc *Scenario) {
+func c14Prelude(w *World, sc *Scenario, soak int) {
 	var old []File
 	for _, f := range sc.Files {
 		g := f
@@ -289,6 +320,29 @@ func c14Prelude(w *World, sc *Scenario) {
 	pw.RunOp(Op{Kind: "evalstr", Src: "<p>before</p>@each(x in [2, 1, 0])<li>{{ 10 / x }}</li>@end", Data: nil}, Budget)
 	pw.RunOp(Op{Kind: "evalstr", Src: "<h1>partial output</h1>{{ undefinedInPrelude }}", Data: nil}, Budget)
 	pw.RunOp(Op{Kind: "evalstr", Src: "@for(i = 0; i < 3; i++)[{{ 6 / (1 - i) }}]@end", Data: nil}, Budget)
+	if soak > 0 {
+		// a long earlier life: hundreds of requests that panicked inside textwire and were recovered by
+		// the caller (what net/http does per request), and hundreds of ordinary ones. Anything that counts
+		// calls, or that is acquired on entry and not released on the panic path, has run out by now.
+		nilData := &Val{T: "map", K: []string{"z", "u"}, V: []Val{VInt(0), VMap([]string{"inner"}, []Val{{T: "nilptr"}})}}
+		page := ""
+		for _, op := range sc.Ops {
+			if op.Kind == "string" {
+				page = op.Name
+				break
+			}
+		}
+		for i := 0; i < soak; i++ {
+			pw.RunOp(Op{Kind: "evalstr", Src: "<p>{{ 7 % z }}</p>", Data: nilData}, Budget)
+			pw.RunOp(Op{Kind: "evalstr", Src: `{{ "a".x }}`, Data: nil}, Budget)
+			pw.RunOp(Op{Kind: "evalstr", Src: "{{ 1 + 1 }}", Data: nil}, Budget)
+			if page != "" {
+				pw.RunOp(Op{Kind: "string", Name: page, Data: nilData}, Budget)
+				pw.RunOp(Op{Kind: "response", Name: page, Data: nilData}, Budget)
+				pw.RunOp(Op{Kind: "string", Name: page, Data: nil}, Budget)
+			}
+		}
+	}
 	simrt.SetFS(w.FS)
 }
 
@@ -340,6 +394,9 @@ func (p c14) check(sc *Scenario, acc *Acc, minimise bool) *Violation {
 		acc.Fault("map-order-"+sc.Replicas[ri].Mode, 1)
 		if sc.Replicas[ri].History {
 			acc.Fault("prior-history-in-same-process", 1)
+			if sc.Replicas[ri].Soak > 0 {
+				acc.Fault("long-prior-history-with-recovered-panics", 1)
+			}
 		}
 		if sc.Replicas[ri].Sched != 0 {
 			acc.Fault("goroutine-schedule-policy", 1)
@@ -468,8 +525,11 @@ func (p c14) signature(sc *Scenario, ri, d int) string {
 	}
 	if sc.Replicas[ri].History {
 		hcand := canonicalReplica
-		hcand.History = true
+		hcand.History, hcand.Soak = true, sc.Replicas[ri].Soak
 		if dd, _, _, _ := c14Diverges(sc, hcand); dd >= 0 {
+			if hcand.Soak > 0 {
+				return "earlier-history-long:" + sc.Family
+			}
 			return "earlier-history:" + sc.Family
 		}
 	}
@@ -496,7 +556,7 @@ func (p c14) minimise(orig *Scenario, ri, d int, v *Violation) *Violation {
 	cand := canonicalReplica
 	cand.Clock, cand.Rand, cand.Rate = rep.Clock, rep.Rand, rep.Rate
 	hcand := canonicalReplica
-	hcand.History = true
+	hcand.History, hcand.Soak = true, rep.Soak
 	scand := canonicalReplica
 	scand.Sched, scand.Procs, scand.Preempt = rep.Sched, rep.Procs, rep.Preempt
 	if dd, _, _, _ := c14Diverges(sc, canonicalReplica); dd >= 0 {
@@ -510,6 +570,16 @@ func (p c14) minimise(orig *Scenario, ri, d int, v *Violation) *Violation {
 	} else if dd, a, b, _ := c14Diverges(sc, hcand); rep.History && dd >= 0 {
 		_, _ = a, b
 		sig = "earlier-history:" + sc.Family
+		if rep.Soak > 0 {
+			// try to explain it by the short prelude first
+			short := hcand
+			short.Soak = 0
+			if d2, _, _, _ := c14Diverges(sc, short); d2 >= 0 {
+				hcand = short
+			} else {
+				sig = "earlier-history-long:" + sc.Family
+			}
+		}
 		sc.Replicas[1] = hcand
 	} else if dd, _, _, _ := c14Diverges(sc, cand); dd >= 0 {
 		sig = "clock-or-prng"
